@@ -99,8 +99,11 @@ type c08Msg struct {
 	Who    uint64 `json:"who"`
 	MKind  int    `json:"msig"`
 	QKind  int    `json:"qc"`
-	TCKind int    `json:"tc"` // sender's sync info: 0 no TC, 1 valid TC for TCView, 2 sub-quorum TC for TCView
+	TCKind int    `json:"tc"` // sender's sync info: 0 no TC, 1 valid TC for TCView, 2 sub-quorum TC for TCView, 3 TC for TCView of q entries made of TCK members' genuine view signatures with repeats
 	TCView uint64 `json:"tcview"`
+	TCK    int    `json:"tc_distinct,omitempty"`  // kind 3 / forged AggQC: number of distinct signers (< quorum)
+	TCRep  int    `json:"tc_pattern,omitempty"`   // 0 repeats adjacent (AABB..), 1 round robin (ABAB..), 2 the last signer repeated (ABCC..)
+	Agg    bool   `json:"forged_aggqc,omitempty"` // sync info also carries an AggQC for TCView of q entries made of TCK members' genuine message signatures with repeats
 }
 
 type c08Sender struct {
@@ -133,6 +136,7 @@ type c08World struct {
 	forged   hotstuff.QuorumCert
 	cache    map[c08Msg]hotstuff.TimeoutMsg
 	tcs      map[[3]uint64]hotstuff.TimeoutCert
+	vsigs    map[[2]uint64]hotstuff.QuorumSignature // the one genuine view signature of (id, view): same bytes wherever it is used
 }
 
 func (w *c08World) n() int { return len(w.ids) }
@@ -157,7 +161,7 @@ func c08NewWorld(t *testing.T, ids []uint64, initial int, agg bool, scheme strin
 		opts = append(opts, core.WithCache(cacheSz))
 	}
 	w := &c08World{t: t, ids: ids, members: initial, initial: initial, agg: agg, scheme: scheme, cacheSz: cacheSz, sendFail: sendFail,
-		cache: map[c08Msg]hotstuff.TimeoutMsg{}, tcs: map[[3]uint64]hotstuff.TimeoutCert{}}
+		cache: map[c08Msg]hotstuff.TimeoutMsg{}, tcs: map[[3]uint64]hotstuff.TimeoutCert{}, vsigs: map[[2]uint64]hotstuff.QuorumSignature{}}
 	switch scheme {
 	case crypto.NameECDSA:
 		w.gsch = "Ecdsa"
@@ -290,6 +294,63 @@ func (w *c08World) sign(who uint64, msg []byte) hotstuff.QuorumSignature {
 	return sig
 }
 
+// viewSig is replica id's genuine signature over the view; every use carries the same bytes,
+// so a verdict cached for it on receipt of the timeout applies to certificates built from it
+func (w *c08World) viewSig(id, view uint64) hotstuff.QuorumSignature {
+	k := [2]uint64{id, view}
+	if s, ok := w.vsigs[k]; ok {
+		return s
+	}
+	s := w.sign(id, hotstuff.View(view).ToBytes())
+	w.vsigs[k] = s
+	return s
+}
+
+// repeated builds one multi-signature of `total` entries out of the given single signatures,
+// repeating them: pattern 0 AABB.., 1 ABAB.., 2 ABCC..
+func (w *c08World) repeated(sigs []hotstuff.QuorumSignature, pattern, total int) hotstuff.QuorumSignature {
+	k := len(sigs)
+	idx := make([]int, total)
+	for i := range idx {
+		switch pattern {
+		case 0:
+			idx[i] = i * k / total
+		case 1:
+			idx[i] = i % k
+		default:
+			idx[i] = i
+			if i >= k {
+				idx[i] = k - 1
+			}
+		}
+	}
+	switch sigs[0].(type) {
+	case crypto.Multi[*crypto.ECDSASignature]:
+		out := make(crypto.Multi[*crypto.ECDSASignature], 0, total)
+		for _, j := range idx {
+			out = append(out, sigs[j].(crypto.Multi[*crypto.ECDSASignature])[0])
+		}
+		return out
+	case crypto.Multi[*crypto.EDDSASignature]:
+		out := make(crypto.Multi[*crypto.EDDSASignature], 0, total)
+		for _, j := range idx {
+			out = append(out, sigs[j].(crypto.Multi[*crypto.EDDSASignature])[0])
+		}
+		return out
+	}
+	w.t.Fatalf("repeated: unexpected signature type %T", sigs[0])
+	return nil
+}
+
+// forgers: the TCK members whose genuine signatures a forged certificate repeats (never the replica under test)
+func (w *c08World) forgers(k int) []uint64 {
+	out := make([]uint64, 0, k)
+	for i := 0; i < k; i++ {
+		out = append(out, w.ids[1+i%(len(w.ids)-1)])
+	}
+	return out
+}
+
 // senderTC builds the TC of the sender's sync info from the first q (kind 1) or q-1 (kind 2) replicas
 func (w *c08World) senderTC(kind int, view uint64) hotstuff.TimeoutCert {
 	k := [3]uint64{uint64(kind), view, uint64(w.q())}
@@ -302,7 +363,7 @@ func (w *c08World) senderTC(kind int, view uint64) hotstuff.TimeoutCert {
 	}
 	sigs := make([]hotstuff.QuorumSignature, 0, m)
 	for i := 0; i < m; i++ {
-		sigs = append(sigs, w.sign(w.ids[i], hotstuff.View(view).ToBytes()))
+		sigs = append(sigs, w.viewSig(w.ids[i], view))
 	}
 	sig, err := w.ess[0].Authority().Combine(sigs...)
 	if err != nil {
@@ -341,13 +402,29 @@ func (w *c08World) build(m c08Msg) hotstuff.TimeoutMsg {
 	case c08QGenRelabel:
 		si.SetQC(hotstuff.NewQuorumCert(nil, 3, hotstuff.GetGenesis().Hash()))
 	}
-	if m.TCKind != 0 {
+	if m.TCKind == 3 {
+		var sigs []hotstuff.QuorumSignature
+		for _, f := range w.forgers(m.TCK) {
+			sigs = append(sigs, w.viewSig(f, m.TCView))
+		}
+		si.SetTC(hotstuff.NewTimeoutCert(w.repeated(sigs, m.TCRep, w.q()), hotstuff.View(m.TCView)))
+	} else if m.TCKind != 0 {
 		si.SetTC(w.senderTC(m.TCKind, m.TCView))
+	}
+	if m.Agg {
+		var sigs []hotstuff.QuorumSignature
+		qcs := map[hotstuff.ID]hotstuff.QuorumCert{}
+		for _, f := range w.forgers(m.TCK) {
+			hm := w.build(c08Msg{ID: f, View: m.TCView}) // f's genuine timeout for that view
+			sigs = append(sigs, hm.MsgSignature)
+			qcs[hotstuff.ID(f)], _ = hm.SyncInfo.QC()
+		}
+		si.SetAggQC(hotstuff.NewAggregateQC(qcs, w.repeated(sigs, m.TCRep, w.q()), hotstuff.View(m.TCView)))
 	}
 	tm := hotstuff.TimeoutMsg{ID: id, View: view, SyncInfo: si}
 	switch m.VKind {
 	case c08VHonest:
-		tm.ViewSignature = w.sign(m.ID, view.ToBytes())
+		tm.ViewSignature = w.viewSig(m.ID, m.View)
 	case c08VForeign:
 		tm.ViewSignature = w.sign(m.Who, view.ToBytes())
 	case c08VRelabel:
@@ -410,6 +487,9 @@ func (w *c08World) wellFormed(m c08Msg) bool {
 	if m.TCKind != 0 && (m.TCView == 0 || w.q() < 3 || w.initial != len(w.ids)) {
 		return false
 	}
+	if (m.TCKind == 3 || m.Agg) && (w.bls() || m.TCK < 1 || m.TCK >= w.q() || m.TCView == 0 || w.q() < 2 || w.initial != len(w.ids)) {
+		return false
+	}
 	return true
 }
 
@@ -426,8 +506,11 @@ func (w *c08World) good(m c08Msg) bool {
 
 // firstAdvance: outcome of VerifySyncInfo on the sender's sync info (ground truth)
 func (w *c08World) firstAdvance(m c08Msg) string {
-	if m.TCKind == 2 {
-		return "Reject"
+	if m.TCKind == 2 || m.TCKind == 3 {
+		return "Reject" // fewer than a quorum of distinct signers
+	}
+	if w.agg && m.Agg {
+		return "Reject" // the aggregate rule verifies the AggQC of the sync info
 	}
 	if !w.agg && (m.QKind == c08QForged || m.QKind >= c08QSubB1) {
 		return "Reject" // the simple rule verifies the plain QC of the sync info
@@ -781,10 +864,29 @@ func c08RunSync(v *verifOut, st *verifStream, w *c08World, c0 uint64, msgs []c08
 			c08Oracle(v, false, "timeout.sync:panic", "OnRemoteTimeout panicked: "+o.Err, input)
 			continue
 		}
+		didFire := o.Code == 2 || o.Code == 3
+		if !didFire {
+			// no certificate was assembled at this call: the view may move (by one) only if the sender's
+			// sync info carries a certificate that verifies, i.e. one backed by a quorum of distinct replicas
+			moves := uint64(0)
+			var w0 uint64
+			if n, _ := fmt.Sscanf(a1, "(Ok %d)", &w0); n == 1 && w0 >= entry {
+				moves = 1
+			}
+			if o.View > entry+moves {
+				fp := "timeout.sync:view-moved-without-certificate"
+				if m.TCKind == 2 || m.TCKind == 3 || m.Agg {
+					fp = "timeout.tc:accepted-without-quorum"
+				}
+				c08Oracle(v, false, fp,
+					fmt.Sprintf("replica moved from view %d to %d on a timeout whose sync info carries no certificate signed by a quorum of distinct replicas (tc kind %d, %d distinct signers, quorum %d)", entry, o.View, m.TCKind, m.TCK, q), input)
+			} else {
+				c08Oracle(v, true, "", "", nil)
+			}
+		}
 		if m.View < entry {
 			continue // a view the replica has already left: outside the property
 		}
-		didFire := o.Code == 2 || o.Code == 3
 		mixed := false
 		for _, k := range o.Handed {
 			if k[1] != m.View {
@@ -1302,6 +1404,52 @@ func TestVerifC08(t *testing.T) {
 		}
 	}
 
+	// signature cache on: genuine timeouts from k < q members are received first (their view and
+	// message signatures are verified one by one, hence cached), then a member's timeout whose sync
+	// info carries a TC (and an AggQC) for that view with q entries made of those k cached signatures,
+	// repeated adjacently / round robin / last one repeated.  Such a certificate is not signed by a
+	// quorum of distinct replicas: it must not move the replica.  Also cold (certificate first) and
+	// with the cache off.
+	for _, agg := range []bool{false, true} {
+		for _, vr := range []variant{
+			{c08Seq(4), crypto.NameECDSA, 64, []uint64{5, 4}},
+			{c08Seq(7), crypto.NameECDSA, 64, []uint64{5}},
+			{c08Sparse[7], crypto.NameEDDSA, 64, []uint64{5, 4}},
+			{c08Seq(4), crypto.NameEDDSA, 2, []uint64{5}},
+			{c08Seq(4), crypto.NameECDSA, 0, []uint64{5}},
+		} {
+			w := world(vr.ids, agg, vr.scheme, vr.cacheSz, false)
+			q := w.q()
+			for k := 1; k < q; k++ {
+				for pat := 0; pat < 3; pat++ {
+					if k == 1 && pat > 0 {
+						continue
+					}
+					fs := w.forgers(k)
+					for _, c0 := range vr.c0s {
+						var warm []c08Msg
+						for _, f := range fs {
+							warm = append(warm, c08Msg{ID: f, View: 5})
+						}
+						carriers := []c08Msg{
+							{ID: fs[0], View: 6, TCKind: 3, TCView: 5, TCK: k, TCRep: pat},
+							{ID: fs[k-1], View: 7, TCK: k, TCView: 5, TCRep: pat, Agg: true},
+							{ID: w.ids[len(w.ids)-1], View: 6, TCKind: 3, TCView: 5, TCK: k, TCRep: pat, Agg: true},
+						}
+						ms := append(append([]c08Msg(nil), warm...), carriers...)
+						ms = append(ms, c08Msg{ID: fs[0], View: 5}) // and the view's collection goes on afterwards
+						c08RunSync(v, syn, w, c0, ms, "cached-signer-repeats")
+						if pat == 0 { // cold: the certificate arrives before the genuine timeouts
+							ms = append(append([]c08Msg(nil), carriers[0], carriers[2]), warm...)
+							ms = append(ms, carriers[0])
+							c08RunSync(v, syn, w, c0, ms, "cached-signer-repeats")
+						}
+					}
+				}
+			}
+		}
+	}
+
 	// membership growth: the synchronizer collects its first timeouts while only part of the
 	// replicas are configured; fresh world per run because the configuration is mutated
 	for _, agg := range []bool{false, true} {
@@ -1414,7 +1562,11 @@ func TestVerifC08(t *testing.T) {
 				case 2:
 					m.QKind = 1 + v.rng.Intn(7)
 				case 3:
-					m.TCKind, m.TCView = 1+v.rng.Intn(2), c0+uint64(v.rng.Intn(3))-1
+					m.TCKind, m.TCView = 1+v.rng.Intn(3), c0+uint64(v.rng.Intn(3))-1
+					m.TCK, m.TCRep, m.Agg = 1+v.rng.Intn(w.q()-1), v.rng.Intn(3), v.rng.Intn(3) == 0
+					if m.TCKind != 3 && !m.Agg {
+						m.TCK, m.TCRep = 0, 0
+					}
 				case 4:
 					m.ID, m.VKind, m.Who, m.MKind = outsiders[v.rng.Intn(len(outsiders))], []int{c08VForeign, c08VGarbage, c08VAbsent}[v.rng.Intn(3)], ids[v.rng.Intn(n)], []int{c08MAbsent, c08MGarbage, c08MForeign}[v.rng.Intn(3)]
 				}
